@@ -521,7 +521,8 @@ static void do_op(int t, int i, const char* op) {
   if (IS("nbo") || IS("bl")) {
     long g = CALL("fcntl_getfl", fd, 0, 0, fcntl(fd, F_GETFL));
     if (g < 0) g = 0;
-    if (IS("nbo")) CALL("fcntl_nbo", fd, g | O_NONBLOCK, 0, fcntl(fd, F_SETFL, g | O_NONBLOCK));
+    /* (F_SETFL with exactly O_NONBLOCK is the shim's special case, whatever the idiom) */
+    if (IS("nbo")) CALL((g | O_NONBLOCK) == O_NONBLOCK ? "fcntl_nb" : "fcntl_nbo", fd, g | O_NONBLOCK, 0, fcntl(fd, F_SETFL, g | O_NONBLOCK));
     else CALL("fcntl_bl", fd, g & ~O_NONBLOCK, 0, fcntl(fd, F_SETFL, g & ~O_NONBLOCK));
     return;
   }
@@ -603,7 +604,10 @@ VH_NOINSTR static void setup_objects(const char* setup) {
     long arg = atol(o + 1);
     if (*o == 'S') {
       int sv[2];
-      if (socketpair(AF_UNIX, SOCK_STREAM, 0, sv)) { perror("socketpair"); exit(2); }
+      vr_note("call socketpair -1 0 0");
+      int rr = socketpair(AF_UNIX, SOCK_STREAM, 0, sv);
+      vr_note("ret socketpair %d %d", rr, rr < 0 ? errno : 0);
+      if (rr) { perror("socketpair"); exit(2); }
       if (arg > 0) {
         int v = (int)arg;
         setsockopt(sv[0], SOL_SOCKET, SO_SNDBUF, &v, sizeof v);
@@ -615,14 +619,19 @@ VH_NOINSTR static void setup_objects(const char* setup) {
       ep[nep++] = sv[1];
     } else if (*o == 'P') {
       int pv[2];
-      if (pipe(pv)) { perror("pipe"); exit(2); }
+      vr_note("call pipe -1 0 0");
+      int rr = pipe(pv);
+      vr_note("ret pipe %d %d", rr, rr < 0 ? errno : 0);
+      if (rr) { perror("pipe"); exit(2); }
       if (arg > 0) fcntl(pv[1], F_SETPIPE_SZ, (int)arg);
       peer_of[pv[0]] = pv[1]; /* the read end reads what was written into the write end */
       vr_note("obj P %d %d %d %d", nep, pv[0], nep + 1, pv[1]);
       ep[nep++] = pv[0];
       ep[nep++] = pv[1];
     } else if (*o == 'L') {
+      vr_note("call socket -1 0 0");
       int s = socket(AF_INET, SOCK_STREAM, 0);
+      vr_note("ret socket %d %d", s, s < 0 ? errno : 0);
       struct sockaddr_in a;
       memset(&a, 0, sizeof a);
       a.sin_family = AF_INET;
